@@ -53,10 +53,17 @@ def contracts():
 
 
 from contracts import native as _n
-_IT = ["[1, 2, 3]", "[]", "[[1], [2, 3]]", "[(1,), (2,)]", "['a', 'b']", "[{'a': 1}, {'a': 2, 'b': 3}]", "(x for x in [[1], [2]])", "3", "None", "{'k': [[1], [2]]}", "[[[1]], [[2], [3]]]"]
-_FS = ["Sum()", "Sum(init=float)", "Fold(T, init=list)", "Fold(T, init=int, op=lambda a, b: a * 2 + b)", "Flatten()", "Flatten(init='lazy')", "Flatten(init=tuple)", "Merge()",
+_IT = ["[1, 2, None]", "[1, 2, 3]", "[]", "[[1], [2, 3]]", "[(1,), (2,)]", "['a', 'b']", "[{'a': 1}, {'a': 2, 'b': 3}]", "(x for x in [[1], [2]])", "3", "None", "{'k': [[1], [2]]}", "[[[1]], [[2], [3]]]"]
+_FS = ["Fold(T, init=lambda: 0, op=lambda a, v: v)", "Sum()", "Sum(init=float)", "Fold(T, init=list)", "Fold(T, init=int, op=lambda a, b: a * 2 + b)", "Flatten()", "Flatten(init='lazy')", "Flatten(init=tuple)", "Merge()",
        "Count()", "Sum(T['k'])", "Flatten('k')", "Sum(init=str)", "Merge(init=OrderedDict)", "Fold(T, init=lambda: [0], op=lambda a, b: a + [b])"]
+_FL = [("[[1, 2], [3], [4]]", "{'init': int, 'levels': 2}"), ("[[[1], [2]], [[3]]]", "{'levels': 2}"), ("[[[1], [2]], [[3]]]", "{'levels': 3}"), ("[[1], [2]]", "{}"),
+       ("[[1], [2]]", "{'levels': 0}"), ("[[1], [2]]", "{'levels': -1}"), ("[[(1,), (2,)], [(3,)]]", "{'init': tuple, 'levels': 2}"), ("{'k': [[1], [2]]}", "{'spec': 'k'}"),
+       ("[['a'], ['b', 'c']]", "{'init': str, 'levels': 1}"), ("[[[1.5]], [[2.5]]]", "{'init': float, 'levels': 3}"), ("[[1]]", "{'bogus': 1}"), ("3", "{}")]
+_MG = [("[{'a': 1}, {'a': 2, 'b': 3}]", "{}"), ("[{'a': 1}]", "{'init': OrderedDict}"), ("{'k': [{'a': 1}]}", "{'spec': 'k'}"), ("[[1], [2]]", "{'init': list, 'op': 'extend'}"),
+       ("[{'a': 1}]", "{'op': 'nope'}"), ("[{1}, {2}]", "{'init': set, 'op': set.update}"), ("3", "{}")]
 NATIVE = {
+    'reduction.flatten': _n.differ('reduction.flatten', 'ref_reduce.flatten_func_ref', _FL, mode='kwcall'),
+    'reduction.merge': _n.differ('reduction.merge', 'ref_reduce.merge_func_ref', _MG, mode='kwcall', prelude='from collections import OrderedDict'),
     'reduction.Fold.glomit': _n.differ('reduction.Fold.glomit', 'ref_reduce.fold_glomit_ref', lambda: [(t, f) for t in _IT for f in _FS], mode='method',
                                        prelude='from collections import OrderedDict\nfrom glom.reduction import Count'),
 }
